@@ -599,7 +599,9 @@ func checkErrorsExaminedOnEveryPath(p *Program, r *Result, pkgs []string) {
 					// a nil test of E — and looked at E in no other way — the function does not
 					// return an explicit nil error, unless E was stored or handed to a call
 					if fei := errorResultIndex(fn.Signature); fei >= 0 {
-						if isNil, known := pa.NilOnPath(errv, len(pa.Blocks)); known && !isNil && isNilConst(stripConv(pa.Resolve(resultsOf(pa.Last.(*ssa.Return))[fei]))) {
+						retErr := stripConv(pa.Resolve(resultsOf(pa.Last.(*ssa.Return))[fei]))
+						mayBeNil := isNilConst(retErr) || (!carries[retErr] && !carries[resultsOf(pa.Last.(*ssa.Return))[fei]] && !p.definitelyNonNil(retErr, 0))
+						if isNil, known := pa.NilOnPath(errv, len(pa.Blocks)); known && !isNil && mayBeNil {
 							onlyNilTests := true
 							for i, blk := range pa.Blocks {
 								if i >= len(pa.Edge) || pa.Edge[i] < 0 {
@@ -642,8 +644,40 @@ func checkErrorsExaminedOnEveryPath(p *Program, r *Result, pkgs []string) {
 									}
 								}
 							}
+							// something is done because of the failure: a call or a store in the part
+							// of the path that is only executed on the non-nil side of the test
+							if !handed {
+								for i, blk := range pa.Blocks {
+									if i+1 >= len(pa.Blocks) || i >= len(pa.Edge) || pa.Edge[i] < 0 {
+										continue
+									}
+									x, eq, isTest := nilTestOf(blk)
+									if !isTest || !(carries[x] || carries[stripConv(pa.ResolveAt(x, i))]) {
+										continue
+									}
+									if (pa.Edge[i] == 0) == eq {
+										continue // the nil side
+									}
+									region := pa.Blocks[i+1]
+									for _, b2 := range pa.Blocks[i+1:] {
+										if b2 != region && !region.Dominates(b2) {
+											continue
+										}
+										for _, in := range b2.Instrs {
+											switch y := in.(type) {
+											case *ssa.Store:
+												handed = true
+											case ssa.CallInstruction:
+												if n := calleeName(y.Common()); !strings.HasPrefix(n, "builtin ") {
+													handed = true
+												}
+											}
+										}
+									}
+								}
+							}
 							if onlyNilTests && !handed {
-								bad = "path " + pa.String() + " found the error of " + short(name) + " to be non-nil and returns a nil error at " + r.pos(pa.Last)
+								bad = "path " + pa.String() + " found the error of " + short(name) + " to be non-nil, does nothing with it and carries on to the return at " + r.pos(pa.Last) + " (whose error need not be non-nil)"
 								break
 							}
 						}
